@@ -54,10 +54,14 @@ type midOp struct {
 }
 
 type stepCtx struct {
-	kind string // add | remove | reorg | reorgmid
+	kind string // add | remove | reorg | reorgmid | bulk (= full evaluation after a run of light steps, large-scale histories)
 	tx   *txRec
 	ret  bool
 	mid  *midOp
+	// light steps only: Get(id) immediately before / after the call (same watched call)
+	lb, la bool
+	// bulk only: what the light steps since the last full evaluation did
+	bulkAdds, bulkRemoves int
 }
 
 func (c *stepCtx) String() string {
@@ -66,6 +70,8 @@ func (c *stepCtx) String() string {
 		return fmt.Sprintf("Add(%s)=%v", c.tx.spec, c.ret)
 	case "remove":
 		return fmt.Sprintf("Remove(%s)=%v", c.tx.spec, c.ret)
+	case "bulk":
+		return fmt.Sprintf("state after the last %d Add and %d Remove calls", c.bulkAdds, c.bulkRemoves)
 	case "reorgmid":
 		op := "Remove"
 		if c.mid.add {
@@ -109,6 +115,11 @@ type machine struct {
 	abandoned int
 	flags     map[string]bool // classification of the history
 	steps     int
+
+	// large-scale histories (scale_test.go)
+	probeFn func() []string // IDs to probe with Get after a call (nil: every transaction ever built)
+	light   bool            // Add/Remove steps are evaluated by Get before/after only; sync() does the full evaluation
+	dirty   stepCtx         // light steps since the last full evaluation
 }
 
 func newMachine(t failer, c cfgT, nS int, avoid map[string]bool) *machine {
@@ -142,6 +153,9 @@ func (m *machine) freshPool(why string) {
 }
 
 func (m *machine) probeIDs() []string {
+	if m.probeFn != nil {
+		return m.probeFn()
+	}
 	ids := make([]string, 0, len(m.order)+1)
 	for _, r := range m.order {
 		ids = append(ids, r.id)
@@ -242,6 +256,14 @@ func (m *machine) doAdd(r *txRec) {
 		return
 	}
 	ctx := &stepCtx{kind: "add", tx: r}
+	if m.light {
+		m.lightStep(ctx, func() {
+			_, ctx.lb = m.pool.Get(r.tx.ID)
+			ctx.ret = m.pool.Add(r.tx)
+			_, ctx.la = m.pool.Get(r.tx.ID)
+		})
+		return
+	}
 	m.step(ctx, func() { ctx.ret = m.pool.Add(r.tx) })
 }
 
@@ -250,7 +272,82 @@ func (m *machine) doRemove(r *txRec) {
 		return
 	}
 	ctx := &stepCtx{kind: "remove", tx: r}
+	if m.light {
+		m.lightStep(ctx, func() {
+			_, ctx.lb = m.pool.Get(r.tx.ID)
+			ctx.ret = m.pool.Remove(r.tx.ID)
+			_, ctx.la = m.pool.Get(r.tx.ID)
+		})
+		return
+	}
 	m.step(ctx, func() { ctx.ret = m.pool.Remove(r.tx.ID) })
+}
+
+// lightStep: one watched Add / Remove whose result is judged by Get(id) immediately before and after it (I5 / Remove result);
+// everything else (I1-I4, getters) is evaluated by the next sync(). Used by the bulk phases of the large-scale histories only, and
+// only on a tree without known findings (the avoidance rules need the exact state before every call).
+func (m *machine) lightStep(ctx *stepCtx, call func()) {
+	m.steps++
+	if m.dirty.bulkAdds+m.dirty.bulkRemoves == 0 {
+		m.ver.resetCalls()
+	}
+	st, dump := guard(call)
+	m.hist = append(m.hist, ctx.String())
+	var vs []viol
+	switch st {
+	case callDeadlock:
+		vs = append(vs, viol{"live:deadlock", "", "the call never returns; goroutines inside the pool (all parked on its locks):\n" + dump})
+	case callPanic:
+		vs = append(vs, viol{"panic", "", dump})
+	case callTimeout:
+		evid.R.Inconclusive("call %s did not return within %s without deadlock evidence; pool abandoned", ctx, wdLimit)
+		m.dirty = stepCtx{}
+		m.freshPool("timeout without evidence")
+		return
+	default:
+		r := ctx.tx
+		if ctx.kind == "add" {
+			m.dirty.bulkAdds++
+			if ctx.ret && !ctx.la {
+				vs = append(vs, viol{"I5:add-true-absent", r.id, fmt.Sprintf("Add returned true but Get does not find %s", r.spec)})
+			}
+			if !ctx.ret && !ctx.lb && ctx.la {
+				vs = append(vs, viol{"I5:add-false-present", r.id, fmt.Sprintf("Add returned false but %s is pooled now", r.spec)})
+			}
+			if ctx.ret {
+				m.flags["add:accepted"] = true
+			} else {
+				m.flags["add:rejected"] = true
+			}
+		} else {
+			m.dirty.bulkRemoves++
+			if ctx.la {
+				vs = append(vs, viol{"op:remove-still-pooled", r.id, fmt.Sprintf("%s is still pooled after Remove (returned %v)", r.spec, ctx.ret)})
+			}
+			if ctx.ret != ctx.lb {
+				vs = append(vs, viol{"op:remove-result", r.id, fmt.Sprintf("Remove(%s) returned %v, pooled before: %v", r.spec, ctx.ret, ctx.lb)})
+			}
+			if ctx.ret {
+				m.flags["remove:hit"] = true
+			} else {
+				m.flags["remove:miss"] = true
+			}
+		}
+	}
+	if len(vs) > 0 {
+		m.dirty = stepCtx{}
+		m.handle(vs, ctx, nil)
+	}
+}
+
+// sync evaluates the full invariant set on the state reached by the light steps since the last full evaluation.
+func (m *machine) sync() {
+	if m.stopped || m.dirty.bulkAdds+m.dirty.bulkRemoves == 0 {
+		return
+	}
+	ctx := &stepCtx{kind: "bulk", bulkAdds: m.dirty.bulkAdds, bulkRemoves: m.dirty.bulkRemoves}
+	m.dirty = stepCtx{}
+	m.evaluate(ctx, callOK, "")
 }
 
 func (m *machine) doReorg() {
@@ -317,6 +414,10 @@ func (m *machine) setAnswer(r *txRec, a int) {
 }
 
 func (m *machine) step(ctx *stepCtx, call func()) {
+	m.sync()
+	if m.stopped {
+		return
+	}
 	m.steps++
 	m.ver.resetCalls()
 	st, dump := guard(call)
@@ -325,6 +426,11 @@ func (m *machine) step(ctx *stepCtx, call func()) {
 		st, dump = ctx.mid.h.wait()
 	}
 	m.hist = append(m.hist, ctx.String())
+	m.evaluate(ctx, st, dump)
+}
+
+// evaluate: the full invariant evaluation after a call that ended with watchdog status st.
+func (m *machine) evaluate(ctx *stepCtx, st int, dump string) {
 	var vs []viol
 	switch st {
 	case callDeadlock:
@@ -492,7 +598,10 @@ func (m *machine) handle(vs []viol, ctx *stepCtx, s *snap) {
 	}
 	if len(unknown) > 0 {
 		m.stopped = true
-		m.t.Fatalf("C14 violated by %s:\n  %s\nhistory (%d steps):\n  %s", ctx, strings.Join(unknown, "\n  "), m.steps, strings.Join(m.hist, "\n  "))
+		// the first line of the violation again after the history: the driver shows the tail of the output
+		first := strings.SplitN(unknown[0], "\n", 2)[0]
+		m.t.Fatalf("C14 violated by %s:\n  %s\nhistory (%d steps):\n  %s\nC14 violated by the last call of this history (%s): %s", ctx, strings.Join(unknown, "\n  "), m.steps,
+			strings.Join(m.hist, "\n  "), ctx, first)
 		return
 	}
 	tolerated := s != nil
@@ -563,6 +672,14 @@ func (m *machine) track(ctx *stepCtx, s *snap) {
 			m.flags["remove:hit"] = true
 		} else {
 			m.flags["remove:miss"] = true
+		}
+	case "bulk": // approximate classification of a run of light steps (labels only)
+		if ctx.bulkAdds > 0 && ctx.bulkRemoves == 0 && lost > 0 && m.flags["add:accepted"] {
+			if len(p.raw.All) >= m.cfg.Max || len(s.raw.All) >= m.cfg.Max {
+				m.flags["evict:pool"] = true
+			} else {
+				m.flags["evict:sender-or-replacement"] = true
+			}
 		}
 	case "reorg", "reorgmid":
 		if lost > 0 {
